@@ -15,5 +15,8 @@ TEXT = {
  'C12': dict(level='The lexer is a character-level TLA+ state machine (Lexer.tla, one action per match_loop arm). TLC checks, in every state of every text up to the bound over six alphabets (ASCII classes, multi-line literals with suffixes, one member of every non-ASCII class, numerals, blanks/line ends, short keywords), that tokens are ordered non-overlapping slices with ignorable gaps and true positions computed from the text alone; every text is replayed and the real token stream must equal the model\'s; recorded streams of long random texts are validated by TLC against LexTrace.tla. A self-test config re-creates the repaired stale-suffix defect and must be rejected.',
              ref='DESIGN.md 5 C12', note='bounded text length (3-4 exhaustive, 5 thorough; 60-150 sampled); one representative per Unicode class',
              technique='TLA+ lexer state machine, TLC invariants, replay + trace validation'),
+ 'C01': dict(level='Totality of the front end. The lexer model proves termination (variant), progress and in-bounds slicing for every enumerated text; every text TLC enumerates (character alphabets up to the bound, token soup over all parser dispatch classes) or samples by simulation is parsed by the real parser in debug and release builds inside supervised worker processes, so a panic, abort, stack overflow or hang is observed and reported; every error is rendered.',
+             ref='DESIGN.md 5 C01', note='bounded text length / fragment count; nesting deeper than the bound is only sampled; silent release-mode UB is not observable',
+             technique='TLA+ lexer model + TLC enumeration/simulation + supervised replay in both build profiles'),
 }
 NOT_YET = {}
